@@ -864,6 +864,23 @@ def materialise_branching_consts(j):
         if str(b.get('def_kind', '')).startswith(('Const', 'AssocConst')) and b.get('arg_count', 0) == 0 and not b.get('promoted_of'):
             if branches(b, set()):
                 targets[b['key']] = b
+    # only constants that some body actually names as an operand (`const _: () = assert!(..)` layout assertions are not)
+    used = set()
+
+    def walk_used(x):
+        if isinstance(x, dict):
+            if x.get('k') == 'const' and x.get('constdef'):
+                used.add(x['constdef'])
+            for v in x.values():
+                walk_used(v)
+        elif isinstance(x, list):
+            for v in x:
+                walk_used(v)
+    for b in j['bodies']:
+        walk_used(b.get('blocks'))
+        for pb in b.get('promoted') or []:
+            walk_used(pb.get('blocks'))
+    targets = {k: v for k, v in targets.items() if k in used and k != '_' and not k.endswith('::_')}
     if not targets:
         return 0
     n = 0
